@@ -458,6 +458,23 @@ def _raised_types(prog, callee, depth=2, seen=None):
     return out
 
 
+def _exempt_targets(prog):
+    """target states for which Task._update skips the single-step test"""
+    task = prog.cls(*TASK)
+    f = prog.find_method(task, '_update')
+    g = cfg_of(f)
+    for n in g.nodes:
+        if n.kind == 'test' and isinstance(n.ast, ast.Compare) and \
+                len(n.ast.ops) == 1 and \
+                isinstance(n.ast.ops[0], (ast.In, ast.NotIn)) and \
+                'target' in unparse(n.ast.left):
+            v = prog.fold(f.module, n.ast.comparators[0])
+            if v is not UNKNOWN and isinstance(v, (list, tuple)) and \
+                    isinstance(n.ast.ops[0], ast.NotIn):
+                return set(v)
+    return set()
+
+
 def batch_info(prog):
     tm = prog.cls(*TMGR)
     f = prog.find_method(tm, '_update_tasks')
@@ -661,6 +678,38 @@ def r06_5(prog, rep, rid='R06.5'):
                 isinstance(v.value, ast.Name) and v.value.id == passed and \
                 isinstance(v.slice, ast.Slice) and (
                     v.slice.step is None or unparse(v.slice.step) == '1')
+            # a slice that drops elements is only sound for targets which
+            # Task._update accepts without the single-step test
+            if okv and (v.slice.lower is not None or
+                        v.slice.upper is not None):
+                exempt = _exempt_targets(prog)
+                allowed = None
+                for tid, lab in guards(g, n.id, start=start):
+                    t = g.nodes[tid].ast
+                    if isinstance(t, ast.Compare) and len(t.ops) == 1:
+                        vv = prog.fold(f.module, t.comparators[0])
+                        if vv is UNKNOWN:
+                            continue
+                        if isinstance(t.ops[0], ast.In) and lab == 'T':
+                            allowed = set(vv)
+                        elif isinstance(t.ops[0], ast.Eq) and lab == 'T':
+                            allowed = {vv}
+                rep.check(allowed is not None and allowed <= exempt, rid, f,
+                          'intermediate states are dropped (`%s`) only for '
+                          'targets exempt from the single-step test %s'
+                          % (short(n.ast, 30), sorted(exempt)),
+                          construct='batch:truncate',
+                          message='_update_tasks drops intermediate states '
+                          '(`%s`) for targets %s, but Task._update accepts '
+                          'only %s without the single-step test: the '
+                          'truncated update is rejected and the task is '
+                          'stuck in its old state' % (
+                              short(n.ast, 40), sorted(allowed) if allowed
+                              else 'of any state', sorted(exempt)),
+                          loc=f.loc(n.ast),
+                          history='a notification jumps from AGENT_EXECUTING '
+                          'to DONE: the replay is cut to [DONE], _update '
+                          'raises, the task never becomes final')
             rep.check(okv, rid, f, '`%s` keeps the model order'
                       % short(n.ast, 40), construct=n.ast,
                       message='_update_tasks rewrites the passed states with '
@@ -799,6 +848,8 @@ MUTATIONS = [
     dict(name='R06.5 callbacks never delivered', rules=('R06.5',), edits=[
         (_M, "                for task, state in to_notify:\n                    self._task_cb(task, state)\n", "                pass\n"),
         (_M, "                self._bulk_cbs(set([task for task,_ in to_notify]))", "                pass")]),
+    dict(name='R06.5 intermediate states dropped for every final target (seed C06-a)', rules=('R06.5',), edits=[
+        (_M, "                    if target in [rps.CANCELED, rps.FAILED]:\n                        # don't replay", "                    if target in rps.FINAL:\n                        # don't replay")]),
 ]
 
 SILENT = [
